@@ -261,6 +261,18 @@ pub fn helper_usage(lang: Lang, text: &str, extra_vocab: &[&str]) -> Result<(BTr
                 used.insert("ReviverFunc".to_string());
                 used.insert("ReplacerFunc".to_string());
             }
+            // a member whose whole type is Date — `key: Date;`, `key?: Date;`, `key?: Date | null;` — is one of those
+            // direct fields: it is revived by its key, so the pair has to be there
+            for i in 0..code.len() {
+                if code[i].k == K::Punct && code[i].text == ":" && code.get(i + 1).map(|t| t.k == K::Ident && t.text == "Date").unwrap_or(false) {
+                    let after: Vec<&str> = code[i + 2..].iter().take(3).map(|t| t.text.as_str()).collect();
+                    let whole = after.first() == Some(&";") || (after.len() == 3 && after[0] == "|" && after[1] == "null" && after[2] == ";");
+                    if whole {
+                        used.insert("ReviverFunc".to_string());
+                        used.insert("ReplacerFunc".to_string());
+                    }
+                }
+            }
         }
         Lang::Python => {
             let vocab: Vec<&str> = [
